@@ -19,7 +19,9 @@ CONSTANTS
   \* @type: Int;
   DefaultPeriod,
   \* @type: Bool;
-  Atomic
+  Atomic,
+  \* @type: Bool;
+  ReinstallResets
 VARIABLES
   \* @type: {ck: Str, cv: Int, pk: Str, pv: Int, ws: Int, we: Int, cm: Str};
   cfg,
@@ -48,9 +50,9 @@ BaseCfgs == {[ck |-> "int", cv |-> 2, pk |-> "int", pv |-> 1, ws |-> 0, we |-> 0
              [ck |-> "bad", cv |-> 0, pk |-> "absent", pv |-> 0, ws |-> 2, we |-> 0, cm |-> "blank"],
              [ck |-> "int", cv |-> 0, pk |-> "int", pv |-> 3, ws |-> 0, we |-> 5, cm |-> "expr"]}
 CInit == /\ Threads = {1, 2} /\ MaxNow = 1000 /\ MaxHits = 1000 /\ MaxJump = 1000 /\ DefaultPeriod = 2 /\ Atomic = TRUE
-         /\ Configs = BaseCfgs
+         /\ Configs = BaseCfgs /\ ReinstallResets = FALSE
 CInitDeviation == /\ Threads = {1, 2} /\ MaxNow = 1000 /\ MaxHits = 1000 /\ MaxJump = 1000 /\ DefaultPeriod = 2
-                  /\ Atomic = FALSE /\ Configs = BaseCfgs
+                  /\ Atomic = FALSE /\ Configs = BaseCfgs /\ ReinstallResets = FALSE
 InCollect == {t \in Threads : pc[t] \in {"collect"}}
 TypeInit ==
           /\ cfg \in Configs
